@@ -561,17 +561,41 @@ func runBlocks(c *core.Case) {
 		}
 	}
 
+	// Twin mode: the first two blocks cover the same range, are cut into chunks the same way
+	// (count-based), and hold the same first and last sample per chunk but different interior
+	// timestamps – chunks of equal position, reference and time range with different content.
+	twin := nb >= 2 && r.IntN(5) == 0
+	var twinCfg headCfg
+	if twin {
+		features["twin-chunks-same-bounds-different-interior"] = true
+	}
 	var blocks []*inBlock
 	for bi, rg := range ranges {
 		cfg := genHeadCfg(r)
+		isTwin := twin && bi <= 1
+		if isTwin {
+			if bi == 0 {
+				twinCfg = cfg
+				twinCfg.chunkRange = 100000
+				if twinCfg.samplesPerChunk > 20 {
+					twinCfg.samplesPerChunk = 7
+				}
+			}
+			cfg = twinCfg
+			rg = ranges[0]
+		}
 		h := newHead(c, cfg)
 		var ps []pending
-		wide := r.IntN(3) == 0 // head holds data outside the written range
+		wide := r.IntN(3) == 0 && !isTwin // head holds data outside the written range
 		keep := 30 + r.IntN(71)
+		if isTwin {
+			keep = 100
+		}
 		for _, sd := range series {
-			if len(series) > 1 && r.IntN(4) == 0 {
+			if len(series) > 1 && r.IntN(4) == 0 && !isTwin {
 				continue
 			}
+			pos := 0
 			for _, t := range sd.times {
 				in := t >= rg[0] && t < rg[1]
 				if !in && !(wide && t >= rg[0]-15 && t < rg[1]+15) {
@@ -581,7 +605,13 @@ func runBlocks(c *core.Case) {
 					continue
 				}
 				s := sd.uni[t]
-				if r.IntN(12) == 0 {
+				if isTwin {
+					n := cfg.samplesPerChunk
+					if _, taken := sd.uni[t+1]; bi == 1 && s.Kind == "f" && pos%n != 0 && pos%n != n-1 && !taken && t+1 < rg[1] && r.IntN(2) == 0 {
+						s = sample{T: t + 1, Kind: "f", F: float64(5000 + r.IntN(1000))}
+					}
+					pos++
+				} else if r.IntN(12) == 0 {
 					s = conflicting(r, sd, s)
 				}
 				ps = append(ps, pending{sd, s})
@@ -920,4 +950,3 @@ func compareExpects(a, b tsdbx.Expect) string {
 	}
 	return ""
 }
-
